@@ -361,6 +361,10 @@ func c05Run(l *Lab, rep *Report, w *c05World) {
 		cred{name: "two headers: valid basic then junk", hdr: Hdr{{"Authorization", basic(w.u1, w.basicPw(w.u1))}, {"Authorization", "Bearer x"}}, scheme: "local", valid: true, user: w.u1, basicUP: up(w.u1, w.basicPw(w.u1))},
 		cred{name: "two headers: junk then valid basic", hdr: Hdr{{"Authorization", "Bearer x"}, {"Authorization", basic(w.u1, w.basicPw(w.u1))}}},
 	)
+	// names that only become a known account after someone strips a domain part: unknown to the backend
+	for i, dn := range []string{"CORP\\" + w.u1, w.u2 + "\\" + w.u1, w.u1 + "@evil.example", " " + w.u1, w.u1 + " "} {
+		creds = append(creds, cred{name: fmt.Sprintf("basic domain-decorated user name %d with the account's password", i), hdr: Hdr{{"Authorization", basic(dn, w.basicPw(w.u1))}}, scheme: "local", basicUP: &[2]string{dn, w.basicPw(w.u1)}})
+	}
 	// NTLM (real service users have their own NTLM passwords)
 	ntlmPw := map[string]string{w.u1: "ntlm-pw-1", w.u2: "ntlm-pw-2"}
 	for _, scheme := range []string{"NTLM", "Negotiate"} {
@@ -564,6 +568,73 @@ func c05Run(l *Lab, rep *Report, w *c05World) {
 			}
 			if ci%7 == 0 && m == "RDG_OUT_DATA-upgrade" {
 				rep.Sample(detail)
+			}
+		}
+	}
+	// cookies a confirmed request was given do not stand in for credentials on a later request, and
+	// (with openid stacked) do not make the browser-facing /connect hand out a file
+	if !onlyOpenID && len(w.mech) > 0 {
+		type vc struct {
+			name string
+			hdr  Hdr
+			pre  func(hc *HConn, method string) (Hdr, error)
+		}
+		var valids []vc
+		if has(w.mech, "local") {
+			valids = append(valids, vc{"basic", Hdr{{"Authorization", basic(w.u1, w.basicPw(w.u1))}}, nil})
+		}
+		if has(w.mech, "ntlm") {
+			valids = append(valids, vc{"ntlm", nil, NTLMAuthFunc("NTLM", w.u1, "ntlm-pw-1", "")})
+		}
+		for _, v := range valids {
+			out := w.c05Request("GET", v.hdr, v.pre)
+			if out.Err != nil || out.Resp == nil || out.Status != 200 {
+				continue
+			}
+			var ck []string
+			last := map[string]int{}
+			for _, sc := range out.Resp.Header.Values("Set-Cookie") {
+				kv := strings.SplitN(sc, ";", 2)[0]
+				n := strings.SplitN(kv, "=", 2)[0]
+				if i, ok := last[n]; ok {
+					ck[i] = kv // a later Set-Cookie for the same name replaces the earlier one
+				} else {
+					last[n] = len(ck)
+					ck = append(ck, kv)
+				}
+			}
+			rep.Count(fmt.Sprintf("cookies_after_confirmed_%s_request", v.name), len(ck))
+			if len(ck) == 0 {
+				continue
+			}
+			cookie := [2]string{"Cookie", strings.Join(ck, "; ")}
+			for _, bad := range []string{"", "NTLM Z2FyYmFnZQ==", "Negotiate Z2FyYmFnZQ==", basic(w.u1, "wrong-password"), "Bearer x"} {
+				h := Hdr{cookie}
+				if bad != "" {
+					h = append(h, [2]string{"Authorization", bad})
+				}
+				for _, m := range []string{"RDG_OUT_DATA-upgrade", "GET"} {
+					o := w.c05Request(m, h, nil)
+					if o.T != nil {
+						o.T.Close()
+					}
+					rep.Eval(HashStr(name, "cookie-replay", v.name, bad != "", m, o.Status))
+					if o.Reached {
+						rep.Violate("C05/handler-reached-without-confirmed-credentials/"+name+"/cookie-of-confirmed-request", fmt.Sprintf("mechanisms %v: %s with the cookies of an earlier confirmed %s request and Authorization %q reached the handler (status %d)", w.mech, m, v.name, bad, o.Status), nil)
+					}
+				}
+			}
+			if has(w.mech, "openid") {
+				if hc, err := DialH(w.gw.Addr, DialOpts{TLS: w.tls}); err == nil {
+					r, err := hc.Do("GET", "/connect", Hdr{cookie, {"Connection", "close"}}, nil, 10*time.Second)
+					hc.Close()
+					if err == nil {
+						rep.Eval(HashStr(name, "connect-with-gateway-cookie", v.name, r.Status))
+						if r.Status == 200 || strings.Contains(string(r.Body), "gatewayaccesstoken") {
+							rep.Violate("C05/connect-file-for-gateway-session/"+name, fmt.Sprintf("mechanisms %v: /connect with the cookies of a confirmed %s request to the gateway endpoint (no OpenID login) answered %d with a body of %d bytes", w.mech, v.name, r.Status, len(r.Body)), nil)
+						}
+					}
+				}
 			}
 		}
 	}
